@@ -247,6 +247,16 @@ def wf_custom_stop() -> type:
     return make_workflow("CustomStop", [make_step("start", [StartEvent], [MyStop], start)])
 
 
+def wf_verdict(approved: bool) -> type:
+    from vmc.events import Verdict
+
+    async def start(self, ctx, ev, inv):  # noqa: ANN001
+        await gate("s")
+        return Verdict(approved=approved)
+
+    return make_workflow("VerdictWf", [make_step("start", [StartEvent], [Verdict], start)])
+
+
 def cancel_script(state: dict[str, Any]) -> list[list[Action]]:
     return [[Action("cancel_run", lambda: state["hd"].ctx._workflow_cancel_run())]]
 
@@ -261,6 +271,10 @@ def specs(tier: str) -> list[Spec]:
     sp = [
         Spec("normal_stop", {"cause": "normal_stop"}, lambda: wf_chain(2)),
         Spec("custom_stop", {"cause": "custom_stop"}, wf_custom_stop),
+        # a StopEvent subclass with a truth value of its own, truthy and FALSY, with and without a workflow timeout still pending
+        Spec("custom_stop_truthy", {"cause": "custom_stop"}, lambda: wf_verdict(True), wf_kw={"timeout": 10.0}),
+        Spec("custom_stop_falsy", {"cause": "custom_stop"}, lambda: wf_verdict(False)),
+        Spec("custom_stop_falsy/timeout_pending", {"cause": "custom_stop"}, lambda: wf_verdict(False), wf_kw={"timeout": 10.0}),
         Spec("stop_race", {"cause": "stop_race"}, wf_stop_race, max_dev=(4 if tier == "quick" else None)),
         # overlapping collect_events invocations (stale-snapshot re-runs) on the way to the StopEvent
         Spec("collect_race", {"cause": "normal_stop"}, lambda: wf_collect(2), max_dev=(4 if tier == "quick" else None)),
